@@ -40,6 +40,7 @@ def Compat (sh : Labels → Nat) : VExpr → Prop
   | .binL sig f l r =>
     (∀ a b, sig a = sig b → sh a = sh b) ∧ (∀ x ro s, f x ro = some s → sh s.1 = sh x.1) ∧ Compat sh l ∧ Compat sh r
   | .append l r => Compat sh l ∧ Compat sh r
+  | .overTime _ key _ e => (∀ l, sh (key l) = sh l) ∧ Compat sh e
 
 theorem groupAgg_shard (sh : Labels → Nat) (key : Labels → Labels) (op : List Series → Int)
     (hk : ∀ l, sh (key l) = sh l) (i : Nat) (v : Vec) :
@@ -129,30 +130,39 @@ theorem find?_filter_of_imp {α : Type} (p q : α → Bool) (h : ∀ a, p a = tr
       simp [List.filter_cons, hq, List.find?_cons, hp, find?_filter_of_imp p q h xs]
 
 /-- **evaluation commutes with taking a shard** (as lists, order included) -/
+theorem shardOf_flatMap (sh : Labels → Nat) (i : Nat) {α : Type} (f : α → Vec) :
+    ∀ l : List α, shardOf sh i (l.flatMap f) = l.flatMap fun a => shardOf sh i (f a)
+  | [] => rfl
+  | a :: l => by
+    simp only [List.flatMap_cons]
+    have ih := shardOf_flatMap sh i f l
+    unfold shardOf at ih ⊢
+    rw [List.filter_append, ih]
+
 theorem eval_shard (sh : Labels → Nat) (i : Nat) :
-    ∀ (e : VExpr), Compat sh e → ∀ s : Vec, eval e (shardOf sh i s) = shardOf sh i (eval e s)
-  | .sel p, _, s => by
-    simp only [eval, shardOf, List.filter_filter]
+    ∀ (e : VExpr), Compat sh e → ∀ (s : TVec) (t : Int), eval e (shardOfT sh i s) t = shardOf sh i (eval e s t)
+  | .sel p, _, s, t => by
+    simp only [eval, shardOfT, shardOf, List.filter_filter]
     apply List.filter_congr
     intro a _
     exact Bool.and_comm _ _
-  | .fn g e, hc, s => by
+  | .fn g e, hc, s, t => by
     simp only [eval]
-    rw [eval_shard sh i e hc.2 s]
+    rw [eval_shard sh i e hc.2 s t]
     exact filterMap_shard sh g hc.1 i _
-  | .agg key op e, hc, s => by
+  | .agg key op e, hc, s, t => by
     simp only [eval]
-    rw [eval_shard sh i e hc.2 s]
+    rw [eval_shard sh i e hc.2 s t]
     exact groupAgg_shard sh key op hc.1 i _
-  | .binL sig f l r, hc, s => by
+  | .binL sig f l r, hc, s, t => by
     obtain ⟨hsig, hf, hl, hr⟩ := hc
     simp only [eval]
-    rw [eval_shard sh i l hl s, eval_shard sh i r hr s]
+    rw [eval_shard sh i l hl s t, eval_shard sh i r hr s t]
     -- on the left series of shard i, looking up the partner in shard i of the right operand is
     -- looking it up in the whole right operand
-    have hcongr : (shardOf sh i (eval l s)).filterMap
-          (fun x => f x ((shardOf sh i (eval r s)).find? fun y => sig y.1 = sig x.1)) =
-        (shardOf sh i (eval l s)).filterMap (fun x => f x ((eval r s).find? fun y => sig y.1 = sig x.1)) := by
+    have hcongr : (shardOf sh i (eval l s t)).filterMap
+          (fun x => f x ((shardOf sh i (eval r s t)).find? fun y => sig y.1 = sig x.1)) =
+        (shardOf sh i (eval l s t)).filterMap (fun x => f x ((eval r s t).find? fun y => sig y.1 = sig x.1)) := by
       apply filterMap_congr'
       intro x hx
       have hxi : sh x.1 = i := by simpa [shardOf] using (List.mem_filter.mp hx).2
@@ -163,41 +173,58 @@ theorem eval_shard (sh : Labels → Nat) (i : Nat) :
       simp [hsig _ _ this, hxi]
     rw [hcongr]
     exact filterMap_shard' sh _ (fun x s' h => hf x _ s' h) i _
-  | .append l r, hc, s => by
+  | .append l r, hc, s, t => by
     simp only [eval]
-    rw [eval_shard sh i l hc.1 s, eval_shard sh i r hc.2 s]
+    rw [eval_shard sh i l hc.1 s t, eval_shard sh i r hc.2 s t]
     simp [shardOf]
+  | .overTime ts key op e, hc, s, t => by
+    simp only [eval]
+    have : ((ts t).flatMap fun t' => eval e (shardOfT sh i s) t') = shardOf sh i ((ts t).flatMap fun t' => eval e s t') := by
+      rw [shardOf_flatMap]
+      congr 1
+      funext t'
+      exact eval_shard sh i e hc.2 s t'
+    rw [this]
+    exact groupAgg_shard sh key op hc.1 i _
 
-/-- every output series has the shard of some input series -/
+/-- every output series has the shard of some input series (of some timestamp) -/
 theorem eval_shard_of_input (sh : Labels → Nat) :
-    ∀ (e : VExpr), Compat sh e → ∀ (s : Vec) (x : Series), x ∈ eval e s → ∃ y ∈ s, sh x.1 = sh y.1
-  | .sel p, _, s, x, hx => by
+    ∀ (e : VExpr), Compat sh e → ∀ (s : TVec) (t : Int) (x : Series), x ∈ eval e s t → ∃ t' y, y ∈ s t' ∧ sh x.1 = sh y.1
+  | .sel p, _, s, t, x, hx => by
     simp only [eval, List.mem_filter] at hx
-    exact ⟨x, hx.1, rfl⟩
-  | .fn g e, hc, s, x, hx => by
+    exact ⟨t, x, hx.1, rfl⟩
+  | .fn g e, hc, s, t, x, hx => by
     simp only [eval, List.mem_filterMap] at hx
     obtain ⟨z, hz, hgz⟩ := hx
-    obtain ⟨y, hy, hzy⟩ := eval_shard_of_input sh e hc.2 s z hz
-    exact ⟨y, hy, by rw [hc.1 _ _ _ hgz, hzy]⟩
-  | .agg key op e, hc, s, x, hx => by
+    obtain ⟨t', y, hy, hzy⟩ := eval_shard_of_input sh e hc.2 s t z hz
+    exact ⟨t', y, hy, by rw [hc.1 _ _ _ hgz, hzy]⟩
+  | .agg key op e, hc, s, t, x, hx => by
     simp only [eval, groupAgg, List.mem_map, mem_nub] at hx
     obtain ⟨k, ⟨z, hz, hzk⟩, hxk⟩ := hx
-    obtain ⟨y, hy, hzy⟩ := eval_shard_of_input sh e hc.2 s z hz
-    refine ⟨y, hy, ?_⟩
+    obtain ⟨t', y, hy, hzy⟩ := eval_shard_of_input sh e hc.2 s t z hz
+    refine ⟨t', y, hy, ?_⟩
     rw [← hxk]
     simp only
     rw [← hzk, hc.1, hzy]
-  | .binL sig f l r, hc, s, x, hx => by
+  | .binL sig f l r, hc, s, t, x, hx => by
     obtain ⟨_, hf, hl, _⟩ := hc
     simp only [eval, List.mem_filterMap] at hx
     obtain ⟨z, hz, hfz⟩ := hx
-    obtain ⟨y, hy, hzy⟩ := eval_shard_of_input sh l hl s z hz
-    exact ⟨y, hy, by rw [hf _ _ _ hfz, hzy]⟩
-  | .append l r, hc, s, x, hx => by
+    obtain ⟨t', y, hy, hzy⟩ := eval_shard_of_input sh l hl s t z hz
+    exact ⟨t', y, hy, by rw [hf _ _ _ hfz, hzy]⟩
+  | .append l r, hc, s, t, x, hx => by
     simp only [eval, List.mem_append] at hx
     rcases hx with hx | hx
-    · exact eval_shard_of_input sh l hc.1 s x hx
-    · exact eval_shard_of_input sh r hc.2 s x hx
+    · exact eval_shard_of_input sh l hc.1 s t x hx
+    · exact eval_shard_of_input sh r hc.2 s t x hx
+  | .overTime ts key op e, hc, s, t, x, hx => by
+    simp only [eval, groupAgg, List.mem_map, mem_nub, List.mem_flatMap] at hx
+    obtain ⟨k, ⟨z, ⟨t1, _, hz⟩, hzk⟩, hxk⟩ := hx
+    obtain ⟨t', y, hy, hzy⟩ := eval_shard_of_input sh e hc.2 s t1 z hz
+    refine ⟨t', y, hy, ?_⟩
+    rw [← hxk]
+    simp only
+    rw [← hzk, hc.1, hzy]
 
 /-- a list is a permutation of its parts by shard index -/
 theorem perm_shards (sh : Labels → Nat) (v : Vec) :
@@ -252,10 +279,14 @@ inductive FExpr where
       the many side's labels without the metric name, the `inc` labels taken from the one side -/
   | binMany (op : String) (on : Bool) (L inc : List String) (manyLeft : Bool) (f : Int → Int → Option Int)
       (many one : FExpr)
-  /-- a range function over a matrix selector, `rate(m[5m])`, `max_over_time(m[1m])` …: a
-      per-series function of the series' window (the one-timestamp model carries one value per
-      series, standing for that window); the metric name is dropped when `drop` -/
-  | rangeFn (name : String) (text rng : String) (p : Labels → Bool) (drop : Bool) (f : Int → Option Int)
+  /-- a range function over a matrix selector, `rate(m[5m])`, `max_over_time(m[1m])` …: for every
+      series, a function `f` of its samples at the timestamps `ts t` of the window; the metric
+      name is dropped when `drop` -/
+  | rangeFn (name : String) (text rng : String) (p : Labels → Bool) (drop : Bool) (ts : Int → List Int)
+      (f : List Series → Int)
+  /-- a function over a subquery, `max_over_time((e)[1h:1m])`: the inner expression is evaluated
+      at the timestamps `ts t`, then reduced per series -/
+  | subq (name : String) (rng : String) (drop : Bool) (ts : Int → List Int) (f : List Series → Int) (e : FExpr)
   /-- `label_replace(e, dst, …)` / `label_join(e, dst, …)`: label `dst` is set to a value computed
       from the series' own labels (`none` = the label is removed); the other arguments are
       string literals -/
@@ -283,7 +314,8 @@ def FExpr.WF : FExpr → Prop
   | .or_ _ _ l r => l.WF ∧ r.WF
   | .histQ _ _ e => e.WF
   | .labelFn name _ _ _ e => (name = "label_replace" ∨ name = "label_join") ∧ e.WF
-  | .rangeFn name _ _ _ _ _ => plainFn name = true
+  | .rangeFn name _ _ _ _ _ _ => plainFn name = true
+  | .subq name _ _ _ _ e => plainFn name = true ∧ e.WF
   | .binMany _ on L inc _ _ many one =>
     -- the parser rejects a label in both `on` and `group_x`; with `ignoring` only labels of `L`
     -- can differ between the sides, so only those are meaningful to copy
@@ -298,7 +330,8 @@ def FExpr.toExpr : FExpr → Expr
   | .or_ on L l r => .bin "or" (if on then .on else .ignoring) L l.toExpr r.toExpr
   | .histQ phi _ e => .call "histogram_quantile" [.num phi, e.toExpr]
   | .labelFn name dst extra _ e => .call name (e.toExpr :: .str dst :: extra.map .str)
-  | .rangeFn name text rng _ _ _ => .call name [.mat text rng]
+  | .rangeFn name text rng _ _ _ _ => .call name [.mat text rng]
+  | .subq name rng _ _ _ e => .call name [.sub e.toExpr rng]
   | .binMany op on L _ manyLeft _ many one =>
     if manyLeft then .bin op (if on then .on else .ignoring) L many.toExpr one.toExpr
     else .bin op (if on then .on else .ignoring) L one.toExpr many.toExpr
@@ -316,8 +349,8 @@ def FExpr.toV : FExpr → VExpr
   | .histQ _ f e => .agg (keyWithout ["le"]) f e.toV
   | .labelFn _ dst _ v e =>
     .fn (fun l x => some ((l.filter fun p => p.1 ≠ dst) ++ (match v l with | none => [] | some s => [(dst, s)]), x)) e.toV
-  | .rangeFn _ _ _ p drop f =>
-    .fn (fun l v => (f v).map fun v' => (if drop then dropName l else l, v')) (.sel p)
+  | .rangeFn _ _ _ p drop ts f => .overTime ts (if drop then dropName else id) f (.sel p)
+  | .subq _ _ drop ts f e => .overTime ts (if drop then dropName else id) f e.toV
   | .binMany _ on L inc _ f many one =>
     .binL (sigOf on L)
       (fun x ro => ro.bind fun r => (f x.2 r.2).map fun v => (withInc inc (dropName x.1) r.1, v)) many.toV one.toV
@@ -332,7 +365,8 @@ def FExpr.scopes : FExpr → List (List String × Bool)
   | .or_ on L l r => binScope on L :: (l.scopes ++ r.scopes)
   | .histQ _ _ e => (["le"], false) :: e.scopes
   | .labelFn _ _ _ _ e => e.scopes
-  | .rangeFn _ _ _ _ _ _ => []
+  | .rangeFn _ _ _ _ _ _ _ => []
+  | .subq _ _ _ _ _ e => e.scopes
   | .binMany _ on L _ manyLeft _ many one =>
     binScope on L :: (if manyLeft then many.scopes ++ one.scopes else one.scopes ++ many.scopes)
 
@@ -346,7 +380,8 @@ def FExpr.dyns : FExpr → List String
   | .or_ _ _ l r => l.dyns ++ r.dyns
   | .histQ _ _ e => e.dyns
   | .labelFn _ dst _ _ e => dst :: e.dyns
-  | .rangeFn _ _ _ _ _ _ => []
+  | .rangeFn _ _ _ _ _ _ _ => []
+  | .subq _ _ _ _ _ e => e.dyns
   | .binMany _ _ _ _ manyLeft _ many one => if manyLeft then many.dyns ++ one.dyns else one.dyns ++ many.dyns
 
 def foldScopes (a : Analysis) (scs : List (List String × Bool)) : Analysis :=
@@ -366,8 +401,13 @@ theorem isScalar_fragment : ∀ (e : FExpr), e.WF → isScalar e.toExpr = false
   | .histQ _ _ _, _ => by simp [FExpr.toExpr, isScalar]
   | .labelFn name _ _ _ _, hwf => by
     rcases hwf.1 with h | h <;> simp [FExpr.toExpr, isScalar, h]
-  | .rangeFn name _ _ _ _ _, hwf => by
+  | .rangeFn name _ _ _ _ _ _, hwf => by
     have hp : plainFn name = true := hwf
+    simp only [plainFn, Bool.not_eq_true', Bool.or_eq_false_iff, decide_eq_false_iff_not] at hp
+    obtain ⟨⟨⟨⟨⟨⟨⟨_, _⟩, _⟩, _⟩, h5⟩, _⟩, h7⟩, h8⟩ := hp
+    simp [FExpr.toExpr, isScalar, h5, h7, h8]
+  | .subq name _ _ _ _ _, hwf => by
+    have hp : plainFn name = true := hwf.1
     simp only [plainFn, Bool.not_eq_true', Bool.or_eq_false_iff, decide_eq_false_iff_not] at hp
     obtain ⟨⟨⟨⟨⟨⟨⟨_, _⟩, _⟩, _⟩, h5⟩, _⟩, h7⟩, h8⟩ := hp
     simp [FExpr.toExpr, isScalar, h5, h7, h8]
@@ -452,7 +492,13 @@ theorem walk_fragment : ∀ (e : FExpr), e.WF → ∀ st : St, st.ok = true → 
     simp only [walk]
     rw [this]
     simp [FExpr.scopes, FExpr.dyns, List.append_assoc]
-  | .rangeFn name _ _ _ _ _, hwf, st, hok => by
+  | .subq name _ _ _ _ e, hwf, st, hok => by
+    have hp := hwf.1
+    simp only [plainFn, Bool.not_eq_true', Bool.or_eq_false_iff, decide_eq_false_iff_not] at hp
+    obtain ⟨⟨⟨⟨⟨⟨⟨h1, h2⟩, h3⟩, h4⟩, h5⟩, h6⟩, _⟩, _⟩ := hp
+    simp only [FExpr.toExpr, walk, hok, h1, h2, h3, h4, h5, h6, walkList]
+    simp [walk_fragment e hwf.2 st hok, hok, walked, FExpr.scopes, FExpr.dyns]
+  | .rangeFn name _ _ _ _ _ _, hwf, st, hok => by
     have hp : plainFn name = true := hwf
     simp only [plainFn, Bool.not_eq_true', Bool.or_eq_false_iff, decide_eq_false_iff_not] at hp
     obtain ⟨⟨⟨⟨⟨⟨⟨h1, h2⟩, h3⟩, h4⟩, h5⟩, h6⟩, _⟩, _⟩ := hp
@@ -690,7 +736,8 @@ def Scoped (K : List String) (by_ : Bool) : FExpr → Prop
   | .histQ _ _ e =>
     (NameSafe K by_ ∧ if by_ then ∀ k ∈ K, k ∉ ["le"] else ∀ x ∈ ["le"], x ∈ K) ∧ Scoped K by_ e
   | .labelFn _ dst _ _ e => shardByLabel K dst by_ = false ∧ Scoped K by_ e
-  | .rangeFn _ _ _ _ drop _ => drop = true → NameSafe K by_
+  | .rangeFn _ _ _ _ drop _ _ => drop = true → NameSafe K by_
+  | .subq _ _ drop _ _ e => (drop = true → NameSafe K by_) ∧ Scoped K by_ e
   | .binMany _ on L inc _ _ many one =>
     (BinOK K by_ on L ∧ NameSafe K by_ ∧ (if on then ∀ i ∈ inc, i ∉ L else ∀ i ∈ inc, i ∈ L)) ∧
       Scoped K by_ many ∧ Scoped K by_ one
@@ -824,22 +871,28 @@ theorem compat_of_scoped (hash : Labels → Nat) (total : Nat) (K : List String)
       | none => simp at hs; subst hs; rfl
       | some _ => simp at hs
   | .histQ _ f e, h => ⟨compat_histQ hash total K by_ h.1, compat_of_scoped hash total K by_ e h.2⟩
-  | .rangeFn _ _ _ _ drop f, h => by
+  | .rangeFn _ _ _ _ drop _ f, h => by
     refine ⟨?_, trivial⟩
-    intro l v s hs
-    cases hf : f v with
-    | none => simp [hf] at hs
-    | some v' =>
-      simp only [hf, Option.map_some, Option.some.injEq] at hs
-      subst hs
-      cases drop with
-      | false => rfl
-      | true =>
-        have hn := h rfl
-        unfold shReal
-        cases by_ with
-        | true => simp only [if_true]; rw [proj_dropName_by (by simpa [NameSafe] using hn)]
-        | false => simp only [if_true]; rw [proj_dropName_without (by simpa [NameSafe] using hn)]
+    intro l
+    cases drop with
+    | false => rfl
+    | true =>
+      have hn := h rfl
+      unfold shReal
+      cases by_ with
+      | true => simp only [if_true]; rw [proj_dropName_by (by simpa [NameSafe] using hn)]
+      | false => simp only [if_true]; rw [proj_dropName_without (by simpa [NameSafe] using hn)]
+  | .subq _ _ drop _ f e, h => by
+    refine ⟨?_, compat_of_scoped hash total K by_ e h.2⟩
+    intro l
+    cases drop with
+    | false => rfl
+    | true =>
+      have hn := h.1 rfl
+      unfold shReal
+      cases by_ with
+      | true => simp only [if_true]; rw [proj_dropName_by (by simpa [NameSafe] using hn)]
+      | false => simp only [if_true]; rw [proj_dropName_without (by simpa [NameSafe] using hn)]
   | .labelFn _ dst _ v e, h => by
     refine ⟨?_, compat_of_scoped hash total K by_ e h.2⟩
     intro l x s hs
@@ -969,7 +1022,8 @@ theorem scoped_of_inv (K : List String) (by_ : Bool) (hn : NameSafe K by_) :
       refine ⟨⟨hn, by simpa using (h (["le"], false) (by simp)).2⟩, scoped_of_inv K false hn e hwf hd ?_⟩
       unfold ScopeInv; simp only [Bool.false_eq_true, if_false]
       exact fun sc hsc => h sc (List.mem_cons_of_mem _ hsc)
-  | .rangeFn _ _ _ _ _ _, _, _, _ => fun _ => hn
+  | .rangeFn _ _ _ _ _ _ _, _, _, _ => fun _ => hn
+  | .subq _ _ _ _ _ e, hwf, hd, h => ⟨fun _ => hn, scoped_of_inv K by_ hn e hwf.2 hd h⟩
   | .labelFn _ dst _ _ e, hwf, hd, h => by
     simp only [FExpr.dyns] at hd
     exact ⟨hd dst (by simp), scoped_of_inv K by_ hn e hwf.2 (fun d hd' => hd d (List.mem_cons_of_mem _ hd')) h⟩
